@@ -182,6 +182,9 @@ macro_rules! cts_harness {
 
 fn_cipher!(F2w2, U2, 2, U2, 8);
 fn_cipher!(F3w2, U3, 3, U2, 8);
+// parallel width 1 (software ciphers such as belt-block): the `ParBlocksSize > 1` branches are skipped
+fn_cipher!(F2w1, U2, 2, U1, 8);
+fn_cipher!(F2w3, U2, 2, U3, 8);
 
 cts_harness!(cts_cbc1enc_b2w2_n3, 12, F2w2, 2, 7, true, 1, true, CbcCs1);
 cts_harness!(cts_cbc1dec_b2w2_n3, 12, F2w2, 2, 7, false, 1, true, CbcCs1);
@@ -207,3 +210,27 @@ cts_harness!(cts_ecb2enc_b3w2_n3, 14, F3w2, 3, 10, true, 2, false, EcbCs2);
 cts_harness!(cts_ecb2dec_b3w2_n3, 14, F3w2, 3, 10, false, 2, false, EcbCs2);
 cts_harness!(cts_ecb3enc_b3w2_n3, 14, F3w2, 3, 10, true, 3, false, EcbCs3);
 cts_harness!(cts_ecb3dec_b3w2_n3, 14, F3w2, 3, 10, false, 3, false, EcbCs3);
+cts_harness!(cts_cbc1enc_b2w1_n3_nat, 12, F2w1, 2, 7, true, 1, true, CbcCs1);
+cts_harness!(cts_cbc1enc_b2w3_n4_nat, 14, F2w3, 2, 9, true, 1, true, CbcCs1);
+cts_harness!(cts_cbc1dec_b2w1_n3_nat, 12, F2w1, 2, 7, false, 1, true, CbcCs1);
+cts_harness!(cts_cbc1dec_b2w3_n4_nat, 14, F2w3, 2, 9, false, 1, true, CbcCs1);
+cts_harness!(cts_cbc2enc_b2w1_n3_nat, 12, F2w1, 2, 7, true, 2, true, CbcCs2);
+cts_harness!(cts_cbc2enc_b2w3_n4_nat, 14, F2w3, 2, 9, true, 2, true, CbcCs2);
+cts_harness!(cts_cbc2dec_b2w1_n3_nat, 12, F2w1, 2, 7, false, 2, true, CbcCs2);
+cts_harness!(cts_cbc2dec_b2w3_n4_nat, 14, F2w3, 2, 9, false, 2, true, CbcCs2);
+cts_harness!(cts_cbc3enc_b2w1_n3_nat, 12, F2w1, 2, 7, true, 3, true, CbcCs3);
+cts_harness!(cts_cbc3enc_b2w3_n4_nat, 14, F2w3, 2, 9, true, 3, true, CbcCs3);
+cts_harness!(cts_cbc3dec_b2w1_n3_nat, 12, F2w1, 2, 7, false, 3, true, CbcCs3);
+cts_harness!(cts_cbc3dec_b2w3_n4_nat, 14, F2w3, 2, 9, false, 3, true, CbcCs3);
+cts_harness!(cts_ecb1enc_b2w1_n3_nat, 12, F2w1, 2, 7, true, 1, false, EcbCs1);
+cts_harness!(cts_ecb1enc_b2w3_n4_nat, 14, F2w3, 2, 9, true, 1, false, EcbCs1);
+cts_harness!(cts_ecb1dec_b2w1_n3_nat, 12, F2w1, 2, 7, false, 1, false, EcbCs1);
+cts_harness!(cts_ecb1dec_b2w3_n4_nat, 14, F2w3, 2, 9, false, 1, false, EcbCs1);
+cts_harness!(cts_ecb2enc_b2w1_n3_nat, 12, F2w1, 2, 7, true, 2, false, EcbCs2);
+cts_harness!(cts_ecb2enc_b2w3_n4_nat, 14, F2w3, 2, 9, true, 2, false, EcbCs2);
+cts_harness!(cts_ecb2dec_b2w1_n3_nat, 12, F2w1, 2, 7, false, 2, false, EcbCs2);
+cts_harness!(cts_ecb2dec_b2w3_n4_nat, 14, F2w3, 2, 9, false, 2, false, EcbCs2);
+cts_harness!(cts_ecb3enc_b2w1_n3_nat, 12, F2w1, 2, 7, true, 3, false, EcbCs3);
+cts_harness!(cts_ecb3enc_b2w3_n4_nat, 14, F2w3, 2, 9, true, 3, false, EcbCs3);
+cts_harness!(cts_ecb3dec_b2w1_n3_nat, 12, F2w1, 2, 7, false, 3, false, EcbCs3);
+cts_harness!(cts_ecb3dec_b2w3_n4_nat, 14, F2w3, 2, 9, false, 3, false, EcbCs3);
